@@ -1846,6 +1846,13 @@ func walkStructs(t *gty, v reflect.Value, fn func(st *gty, sv reflect.Value)) {
 		for i, f := range t.fields {
 			walkStructs(f.t, v.Field(i), fn)
 		}
+	case "iface":
+		// the struct values behind an interface{} (their types are declared by declareDynamic)
+		if !v.IsNil() {
+			if dt := gtyOf(v.Elem().Type()); dt != nil {
+				walkStructs(dt, v.Elem(), fn)
+			}
+		}
 	case "ptr":
 		if !v.IsNil() {
 			walkStructs(t.elem, v.Elem(), fn)
@@ -1862,7 +1869,7 @@ func walkStructs(t *gty, v reflect.Value, fn func(st *gty, sv reflect.Value)) {
 }
 
 func objreg(c px.Context, t *gty, ve sx.Sexp, withParent bool) core.Result {
-	if !t.has("struct") {
+	if !t.has("struct") && !t.has("iface") {
 		return core.Result{Out: "bad-op", Pred: "FAIL harness-bad-op objreg needs a struct type"}
 	}
 	gv := build(t, ve)
@@ -1886,7 +1893,12 @@ func objreg(c px.Context, t *gty, ve sx.Sexp, withParent bool) core.Result {
 	res := func(out, pred string) core.Result { return core.Result{Out: out, Pred: oneLine(pred), NonTrivial: true, Tags: tags} }
 	na := notReflectable(t) != "" || hasNaN(t, gv)
 	seen := map[reflect.Type]px.Type{}
-	if k, text := safely(func() { declareStructs(c, t, seen, withParent) }); k != "" {
+	if k, text := safely(func() {
+		declareStructs(c, t, seen, withParent)
+		if t.has("iface") {
+			declareDynamic(c, t, gv, seen, withParent)
+		}
+	}); k != "" {
 		if na {
 			return res("declare="+k, "n/a")
 		}
@@ -2790,6 +2802,8 @@ func gen(g *core.G) {
 	genIfaceStructs(g)
 	genDeclaredParents(g)
 	genUndefDefaults(g)
+	genTaggedEmbedded(g)
+	genMappedInIface(g)
 	// tags of other kinds beside the puppet tag (they become a TagsAnnotation of the attribute; implementation only)
 	g.Emit(`@obj (struct (A (int 8) ` + sx.Str(`json:"a" puppet:"name=>'x'"`).Atom + `) (B string ` + sx.Str(`json:"bb,omitempty" yaml:"b"`).Atom + `)) (st 3 x61)`)
 	g.Emit(`@refl (struct (A (ptr string) ` + sx.Str(`lyra:"ignore" puppet:"value=>'d'"`).Atom + `)) (st nil)`)
